@@ -234,7 +234,7 @@ and of packet 2 from feed (the restart after the hand-over leaves `last_data_uni
 frame that the failed unit of packet 2 does not discard, so the undefined-line unit of packet 3 starts a
 new frame in the coroutine only). -/
 theorem cor_ne_feed_without_discard :
-    let cfg : SrcCfg := { corSkipsEmpty := true, pesDiscards := false }
+    let cfg : SrcCfg := { corSkipsEmpty := true, pesDiscards := false, lateOverflow := false, tsCompletesInHeader := false }
     let r := pesCorDrain (2 * corNoDiscardWitness.length + 4) cfg 0 St.init corNoDiscardWitness 0 64
     r.err = none ∧ r.stalled = false ∧
     r.frames.map (fun f => (f.pts, f.lines.map fun l => l.line)) = [(1, [7]), (3, [0, 7])] ∧
